@@ -1115,9 +1115,14 @@ func checkBirthdayMargin(c *Ctx, rule string) {
 		return
 	}
 	n := 0
-	for _, call := range callsNamed(create, "putBirthday") {
+	var writes []*ssa.Call
+	for _, part := range p.regionTop(create) {
+		writes = append(writes, callsNamed(part, "putBirthday")...)
+	}
+	for _, call := range writes {
 		n++
-		arg := stripConv(call.Call.Args[len(call.Call.Args)-1])
+		// in a private part of Create the birthday is the argument at the part's call site
+		arg := stripConv(p.resolveParam(call.Call.Args[len(call.Call.Args)-1]))
 		ok := false
 		why := "the birthday is stored as given (no safety margin)"
 		if add, isCall := arg.(*ssa.Call); isCall && calleeShort(&add.Call) == "Add" && len(add.Call.Args) == 2 {
